@@ -27,16 +27,18 @@ Arguments N.testbit : simpl never.
 
 (* a result that is neither a panic nor fuel exhaustion *)
 Definition rgood {A} (r : res A) : Prop := match r with Panic _ | OutOfFuel => False | _ => True end.
+(* the dimensions a container can hand to the lossless validator: a canvas, a 14-bit VP8L header or an ANMF frame *)
+Definition ldims (w h : N) : Prop := 0 < w <= 2 ^ 24 /\ 0 < h <= 2 ^ 24.
 
 Section T.
 Variables (inp : input) (lenient : bool) (ms : N).
 Variable lossless : N -> N -> bytes -> res unit.
 Variable allow : bool.
-Hypothesis Hll : forall w h b, rgood (lossless w h b).
+Hypothesis Hll : forall w h b, ldims w h -> rgood (lossless w h b).
 (* [noio = true]: additionally no I/O error can arise - seek-style skips stay below the seek bound (a chunk ends at most
    2^32 bytes after a header that lies inside the input) and the validator reports none; then failures are parse errors *)
 Variable noio : bool.
-Hypothesis Hnoio : noio = true -> (lenient = true -> ilen inp + 2 ^ 32 <= ms) /\ (forall w h b e, lossless w h b <> EIo e).
+Hypothesis Hnoio : noio = true -> (lenient = true -> ilen inp + 2 ^ 32 <= ms) /\ (forall w h b e, ldims w h -> lossless w h b <> EIo e).
 Notation exec' := (exec inp lenient ms).
 Notation padreq' := (padreq inp).
 Notation linv' := (linv inp).
@@ -53,8 +55,8 @@ Proof. unfold bad. destruct noio; [apply perr_fails | auto]. Qed.
 (* the body of the current chunk ends at most 2^32 bytes beyond the input *)
 Definition einv (a : astate) : Prop := match a with AIn _ e => e <= ilen inp + 2 ^ 32 | _ => True end.
 Definition rgood2 {A} (r : res A) : Prop := rgood r /\ (noio = true -> forall e, r <> EIo e).
-Lemma Hll2 w h b : rgood2 (lossless w h b).
-Proof. split; [apply Hll|]. intros Hn. apply (proj2 (Hnoio Hn)). Qed.
+Lemma Hll2 w h b : ldims w h -> rgood2 (lossless w h b).
+Proof. intros Hd. split; [now apply Hll|]. intros Hn e. now apply (proj2 (Hnoio Hn)). Qed.
 
 (* the production failed, or it left a level (same enclosing frames) that satisfies the invariants and P *)
 Definition good (P : astate -> N -> Prop) (fr : list frame) (x : res lv * N) : Prop :=
@@ -224,29 +226,40 @@ Proof.
   destruct (negb _); [apply rgood2_parse|]. destruct (negb _); [apply rgood2_parse | apply rgood2_ok].
 Qed.
 
+Lemma parse_vp8l_dims b v : parse_vp8l b = Ok v -> ldims (l_w v) (l_h v).
+Proof.
+  unfold parse_vp8l. destruct (Nat.ltb _ _); [discriminate|]. destruct (negb _); [discriminate|]. destruct (negb _); [discriminate|].
+  intros H. injection H as <-. cbn [l_w l_h]. unfold ldims.
+  assert (2 ^ 14 < 2 ^ 24) by (apply N.pow_lt_mono_r; lia).
+  pose proof (N.mod_lt (le2n (firstn 4 (skipn 1 b))) (2 ^ 14) ltac:(lia)).
+  pose proof (N.mod_lt (le2n (firstn 4 (skipn 1 b)) / 2 ^ 14) (2 ^ 14) ltac:(lia)). lia.
+Qed.
+Lemma le3_dims p q : ldims (le inp p 3 + 1) (le inp q 3 + 1).
+Proof. unfold ldims. pose proof (le_lt inp p 3). pose proof (le_lt inp q 3). change (256 ^ 3) with (2 ^ 24) in *. lia. Qed.
+
 (* ------------------------------------------------------------------ image data *)
 Lemma g_do_vp8l dims h e fr p : linv' (AIn h e) fr p -> einv (AIn h e) ->
   good nopeek fr (exec' (do_vp8l lossless dims (L (AIn h e) fr p)) p).
 Proof.
   intros Hl He. unfold do_vp8l. apply g_read_data; [lia | exact Hl|]. intros Hl1. change (N.to_nat 5) with 5%nat.
-  apply g_lift; [apply rgood_parse_vp8l|]. intros v _.
+  apply g_lift; [apply rgood_parse_vp8l|]. intros v Ev. apply parse_vp8l_dims in Ev.
   assert (K : good nopeek fr (exec' ('(body, l2) <~ read_body (L (AIn h e) fr (p + 5)) ;;
                                      _ <~ lift (lossless (l_w v) (l_h v) body) ;; skip_data l2) (p + 5))).
   { apply g_read_body; [exact Hl1|]. intros u b Hl2.
-    apply g_lift; [apply Hll2|]. intros _ _. apply g_skip_data; [exact Hl2 | exact He | discriminate]. }
+    apply g_lift; [apply Hll2; exact Ev|]. intros _ _. apply g_skip_data; [exact Hl2 | exact He | discriminate]. }
   destruct dims as [[w hh]|]; [destruct ((l_w v =? w) && (l_h v =? hh))|]; cbn [pbind];
     first [exact K | apply good_ret_parse].
 Qed.
 
-Lemma g_do_alph w hh h e fr p : linv' (AIn h e) fr p -> einv (AIn h e) ->
+Lemma g_do_alph w hh h e fr p : ldims w hh -> linv' (AIn h e) fr p -> einv (AIn h e) ->
   good nopeek fr (exec' (do_alph lossless w hh (L (AIn h e) fr p)) p).
 Proof.
-  intros Hl He. unfold do_alph. apply g_read_data; [lia | exact Hl|]. intros Hl1. change (N.to_nat 1) with 1%nat.
+  intros Hd Hl He. unfold do_alph. apply g_read_data; [lia | exact Hl|]. intros Hl1. change (N.to_nat 1) with 1%nat.
   apply g_lift.
   { rewrite parse_alph_spec. destruct (_ =? 0); [apply rgood2_ok | apply rgood2_parse]. }
   intros f _. apply (good_bind (fun a _ => a = AIn h e) nopeek fr fr).
   - destruct (has f 1).
-    + apply g_read_body; [exact Hl1|]. intros u b Hl2. apply g_lift; [apply Hll2|]. intros _ _.
+    + apply g_read_body; [exact Hl1|]. intros u b Hl2. apply g_lift; [apply Hll2; exact Hd|]. intros _ _.
       apply good_ret_ok; [exact Hl2 | exact He | reflexivity].
     + apply good_ret_ok; [exact Hl1 | exact He | reflexivity].
   - intros a' p' Hl' _ -> _. apply g_skip_data; [exact Hl' | exact He | discriminate].
@@ -361,15 +374,15 @@ Qed.
 
 
 (* the (bool, level) result of an optional ALPH part: [read_header ALPH; do_alph; (true, level)] *)
-Lemma g_alph_part w hh a fr p : linv' a fr p ->
+Lemma g_alph_part w hh a fr p : ldims w hh -> linv' a fr p ->
   goodX (fun (_ : bool) _ _ => True) fr
         (exec' ('(_, l1) <~ read_header ALPH (L a fr p) ;; l2 <~ do_alph lossless w hh l1 ;; Ret (Ok (true, l2))) p).
 Proof.
-  intros Hl. rewrite exec_bind.
+  intros Hd Hl. rewrite exec_bind.
   destruct (read_header_spec inp lenient ms ALPH a fr p Hl) as [(Hp & Hb & Hh & Hn & E) | (_ & Hx)];
     [|left; apply bad_ebind; now apply bad_perr].
   rewrite E. cbn [ebind].
-  pose proof (g_do_alph w hh _ _ fr _ (linv_in_hdr inp (loff a p) fr (proj1 Hh)) (einv_in_hdr _ (proj2 Hh))) as G.
+  pose proof (g_do_alph w hh _ _ fr _ Hd (linv_in_hdr inp (loff a p) fr (proj1 Hh)) (einv_in_hdr _ (proj2 Hh))) as G.
   apply (goodX_of_good true) in G. destruct G as [F | (v & a' & p' & E' & Hl' & He' & _)]; [now left|].
   right. exists v, a', p'. auto.
 Qed.
@@ -387,9 +400,10 @@ Proof.
 Qed.
 
 (* ------------------------------------------------------------------ still image after VP8X *)
-Lemma g_sanitize_still x a fr p : linv' a fr p -> einv a -> good nopeek fr (exec' (sanitize_still lossless x (L a fr p)) p).
+Lemma g_sanitize_still x a fr p : ldims (x_w x) (x_h x) -> linv' a fr p -> einv a ->
+  good nopeek fr (exec' (sanitize_still lossless x (L a fr p)) p).
 Proof.
-  intros Hl He. unfold sanitize_still.
+  intros Hd Hl He. unfold sanitize_still.
   apply (goodX_bind (fun (_ : bool) _ _ => True) nopeek fr fr).
   - destruct (has (x_flags x) F_ALPH); [now apply g_alph_part|].
     right. exists false, a, p. rewrite exec_ret. auto.
@@ -410,7 +424,9 @@ Proof.
   apply g_read_header_at; [exact Hl|]. intros Ho Hl1 He1.
   set (o := loff a p) in *. unfold in_hdr in *. set (h := hdr_at' o) in *. set (e := o + 8 + ch_len h) in *.
   apply g_read_data; [lia | exact Hl1|]. intros Hl2. change (N.to_nat 16) with 16%nat.
-  apply g_lift; [apply rgood_parse_anmf|]. intros [fw fh] _. cbv zeta.
+  apply g_lift; [apply rgood_parse_anmf|]. intros [fw fh] Efr. cbv zeta.
+  assert (Hfd : ldims fw fh).
+  { rewrite parse_anmf_spec in Efr. destruct (_ =? 0); [|discriminate]. injection Efr as <- <-. apply le3_dims. }
   rewrite child_L. set (fr' := (h, e) :: fr).
   assert (Hc : linv' (AIdle (ch_name h)) fr' (o + 8 + 16)).
   { split; [|exact I]. apply fits_cons. destruct Hl2 as [Hf2 Ha2]. cbn [ainv] in Ha2. cbn [snd]. split; assumption. }
@@ -491,10 +507,10 @@ Proof.
   eapply good_weaken; [|apply g_skip_named; exact Hl]. intros; exact I.
 Qed.
 
-Lemma g_extended fuel x a fr p : linv' a fr p -> einv a -> (N.to_nat (ilen inp / 8) < fuel)%nat ->
+Lemma g_extended fuel x a fr p : ldims (x_w x) (x_h x) -> linv' a fr p -> einv a -> (N.to_nat (ilen inp / 8) < fuel)%nat ->
   good anyst fr (exec' (sanitize_extended lossless allow fuel x (L a fr p)) p).
 Proof.
-  intros Hl He Hfu. unfold sanitize_extended.
+  intros Hd Hl He Hfu. unfold sanitize_extended.
   apply (good_bind anyst anyst fr fr); [apply g_opt_named; assumption|]. intros a1 p1 Hl1 He1 _ _.
   apply (good_bind anyst anyst fr fr).
   { destruct (has (x_flags x) F_ANIM); [apply g_animated; assumption|].
@@ -601,7 +617,8 @@ Proof.
     apply g_read_data; [lia | exact Hl3|]. intros Hl4. change (N.to_nat 10) with 10%nat.
     apply g_lift.
     { rewrite parse_vp8x_spec. destruct (vp8x_cond _ _); [apply rgood2_ok | apply rgood2_parse]. }
-    intros x _. apply g_extended; [exact Hl4 | exact He3 | exact Hfu]. }
+    intros x Ex. apply g_extended; [| exact Hl4 | exact He3 | exact Hfu].
+    rewrite parse_vp8x_spec in Ex. destruct (vp8x_cond _ _); [|discriminate]. injection Ex as <-. apply le3_dims. }
   intros a2 p2 Hl5 He5 _ _.
   apply (gg_bind ended ended_fails isidle fr1).
   { apply g_file_tail; [exact Hl5 | exact He5 | apply fuel_ok_any; exact Hfu]. }
@@ -623,7 +640,7 @@ Proof.
 Qed.
 
 Theorem webp_sanitize_total lossless allow lenient ms inp fuel :
-  (forall w h b, rgood (lossless w h b)) -> (N.to_nat (ilen inp / 8) < fuel)%nat ->
+  (forall w h b, ldims w h -> rgood (lossless w h b)) -> (N.to_nat (ilen inp / 8) < fuel)%nat ->
   rgood (webp_sanitize lossless allow lenient ms inp fuel).
 Proof.
   intros Hll Hfu. unfold webp_sanitize.
@@ -631,7 +648,7 @@ Proof.
 Qed.
 
 Theorem webp_sanitize_terminates lossless allow lenient ms inp fuel :
-  (forall w h b, rgood (lossless w h b)) -> (N.to_nat (ilen inp / 8) < fuel)%nat ->
+  (forall w h b, ldims w h -> rgood (lossless w h b)) -> (N.to_nat (ilen inp / 8) < fuel)%nat ->
   webp_sanitize lossless allow lenient ms inp fuel <> OutOfFuel.
 Proof.
   intros Hll Hfu E. pose proof (webp_sanitize_total lossless allow lenient ms inp fuel Hll Hfu) as H.
@@ -640,7 +657,7 @@ Qed.
 
 (* no panic for ANY fuel: a run that does not run out of fuel is the run with enough fuel *)
 Theorem webp_sanitize_no_panic lossless allow lenient ms inp fuel :
-  (forall w h b, rgood (lossless w h b)) -> forall n, webp_sanitize lossless allow lenient ms inp fuel <> Panic n.
+  (forall w h b, ldims w h -> rgood (lossless w h b)) -> forall n, webp_sanitize lossless allow lenient ms inp fuel <> Panic n.
 Proof.
   intros Hll n E.
   set (f' := (fuel + S (N.to_nat (ilen inp / 8)))%nat).
@@ -654,7 +671,7 @@ Qed.
    seek-style cursor only when a skip target exceeds its seek bound, which cannot happen when the bound is at least
    2^32 beyond the input (in memory: ilen < 2^63, bound 2^64-1); for ANY fuel *)
 Theorem webp_sanitize_no_io lossless allow lenient ms inp fuel :
-  (forall w h b, rgood (lossless w h b)) -> (forall w h b e, lossless w h b <> EIo e) ->
+  (forall w h b, ldims w h -> rgood (lossless w h b)) -> (forall w h b e, ldims w h -> lossless w h b <> EIo e) ->
   (lenient = true -> ilen inp + 2 ^ 32 <= ms) ->
   forall e, webp_sanitize lossless allow lenient ms inp fuel <> EIo e.
 Proof.
@@ -671,7 +688,7 @@ Qed.
 
 Example webp_total_sat :
   let g := input_of_bytes (RIFF ++ [x0f; x00; x00; x00] ++ [x57; x45; x42; x50] ++ VP8 ++ [x02; x00; x00; x00; x01; x02]) in
-  (forall (w h : N) (b : bytes), rgood (A := unit) (Ok tt)) /\ (N.to_nat (ilen g / 8) < 10)%nat
+  (forall (w h : N) (b : bytes), ldims w h -> rgood (A := unit) (Ok tt)) /\ (N.to_nat (ilen g / 8) < 10)%nat
   /\ ilen g + 2 ^ 32 <= 18446744073709551615
   /\ webp_sanitize (fun _ _ _ => Ok tt) false true 18446744073709551615 g 10 = EParse WInvalidInput.
 Proof. cbv zeta. split; [intros; exact I|]. split; [vm_compute; lia|]. split; [vm_compute; discriminate | vm_compute; reflexivity]. Qed.
